@@ -481,7 +481,8 @@ def end_of_block(w, b, cmd):
     if stop is not None and b["cur"] == stop:
         w.adv_rx.append(b)
         w.blk = None
-        return bytes([0x80, cmd, 0x06 if adv else 0x05])
+        early_total = plan.get("stop_final", "total") == "total"
+        return bytes([0x80, cmd, (0x06 if early_total else 0x05) if adv else 0x05])
     if b["cur"] == b["n"]:
         w.adv_rx.append(b)
         w.blk = None
@@ -571,7 +572,13 @@ def sign_part(w, s, data, op, total_fn, name, next_op, next_st):
     total = total_fn(bytes(s.buf))
     early = w.sign_dev.get("early:" + name)
     late = w.sign_dev.get("late:" + name, 0)
-    if early is not None and len(s.buf) >= early and (total is None or len(s.buf) < total):
+    if early is not None and early < 0:
+        # stop when only -early bytes (or fewer) of the part are still to come
+        hit = total is not None and 0 < total - len(s.buf) <= -early
+    else:
+        hit = early is not None and len(s.buf) >= early and \
+            (total is None or len(s.buf) < total)
+    if hit:
         total = len(s.buf)       # the device decides it has had enough
         s.consumed_all = False
         s.held["early:" + name] = True
